@@ -309,6 +309,7 @@ def units_B(tier):
     from props import c08_bounds as BD
     _wrap(us, "C08.get_token.charge_buffer_index_stays_below_its_capacity", BD.unit_get_token_charge)
     _wrap(us, "C08.spread_row_to_solution.cells_of_a_short_data_row_are_not_read", BD.unit_spread_row_cells)
+    _wrap(us, "C08.get_option.buffers_have_room_for_the_full_option_name", BD.unit_get_option_room)
     from props import c08_errors as ER
     _wrap(us, "C08.errors.Phreeqc_error_msg_makes_the_call_fail", ER.unit_phreeqc_error_msg)
     _wrap(us, "C08.errors.get_input_errors", ER.unit_get_input_errors)
